@@ -110,14 +110,14 @@ PROPS["C20"] = {
 PROPS["C12"] = {
     "props": ["OsmVerif.Props.C12", "OsmVerif.Props.C12b"],
     "gens": ["Update"],
-    "required_theorems": ["index_keys", "incomparable_keys_equal", "less_iff_lex", "sortByIndex_sorted", "sortByIndex_perm",
+    "required_theorems": ["index_keys", "sort_is_stable", "incomparable_keys_equal", "less_iff_lex", "sortByIndex_sorted", "sortByIndex_perm",
                           "collect_success_perm", "compute_order_independent", "updates_sorted_index_time_version", "updates_tie_counterexample",
                           "keys_injective", "updates_order_independent"],
     "technique": "Lean 4 theorems (uniqueness of the key-sorted permutation; order independence of the per-child fold) about a hand-written executable model of core.Compute with the sort keys regenerated from update.go; tied by a differential line protocol and by repeating the real computation on deep copies",
     "level_text": "Machine-checked proof, for every set of parents, histories and options and every pair of iteration orders of the child map, that the model of core.Compute either fails under both orders or succeeds under both, and then yields identical update lists (given that no two distinct updates of a parent share index, time and version - which keys_injective derives, for every input, from version numbers being distinct within each child history: an index is a position, a position holds one child, and a child version's update at a position is a function of the version; so updates_order_independent needs only that data condition) and identical child slots (for parents whose slot assignments address each position once - a position is assigned by the one child it refers to); that the sort keys extracted from update.go are index, timestamp, version, that updates incomparable under them agree on all three, that the sorted permutation is therefore unique, and that every update list is ordered by index, then time, then version. The model is hand-written, the keys are regenerated; every run executes model and real annotate.Ways/Relations on the same generated timelines and repeats the real computation 20 (100) times on fresh copies.",
     "level_note": "Trusted: Lean kernel; correspondence harness; Go's sort.Sort modelled as 'some permutation sorted w.r.t. Less' (the unique one once ties are impossible); Go map iteration modelled as an arbitrary permutation of the key set. KeysInjective (no two distinct updates with equal index, time, version) is a hypothesis of the order-independence theorem, validated per case by the harness.",
     "design_ref": "DESIGN.md §5 C11/C12",
-    "trusted_base": ["model Model/Annotate.lean is hand-written; tie = differential stream through annotate.Ways / annotate.Relations", "Go's sort.Sort returns some permutation sorted w.r.t. Less"],
+    "trusted_base": ["model Model/Annotate.lean is hand-written; tie = differential stream through annotate.Ways / annotate.Relations", "Go's sort.Stable returns the stable permutation sorted w.r.t. Less"],
     "assumptions": ["child versions within one history are distinct"],
 }
 PROPS["C11"] = {
